@@ -98,6 +98,58 @@ pub fn process(
 ) -> Result<Vec<u8>, Error> {
     let mut finalized_opcode = vec![];
 
+    let expected_args = match op {
+        Operation::Custom(_) => None,
+        Operation::Nop
+        | Operation::Ret
+        | Operation::Reti
+        | Operation::Ijmp
+        | Operation::Icall
+        | Operation::Eijmp
+        | Operation::Eicall
+        | Operation::Sleep
+        | Operation::Break
+        | Operation::Wdr
+        | Operation::Spm
+        | Operation::Se(_)
+        | Operation::Cl(_) => Some(0),
+        Operation::Lpm | Operation::Elpm if op_args.is_empty() => Some(0),
+        Operation::Com
+        | Operation::Neg
+        | Operation::Inc
+        | Operation::Dec
+        | Operation::Push
+        | Operation::Pop
+        | Operation::Lsr
+        | Operation::Ror
+        | Operation::Asr
+        | Operation::Swap
+        | Operation::Tst
+        | Operation::Clr
+        | Operation::Lsl
+        | Operation::Rol
+        | Operation::Ser
+        | Operation::Rjmp
+        | Operation::Rcall
+        | Operation::Jmp
+        | Operation::Call
+        | Operation::Bset
+        | Operation::Bclr => Some(1),
+        Operation::Br(BranchT::Bs) | Operation::Br(BranchT::Bc) => Some(2),
+        Operation::Br(_) => Some(1),
+        _ => Some(2),
+    };
+    if let Some(expected_args) = expected_args {
+        if op_args.len() != expected_args {
+            bail!(
+                "{:?} expects {} operand(s), {} given",
+                op,
+                expected_args,
+                op_args.len()
+            );
+        }
+    }
+
     let mut opcode = op.info(constants).op_code;
     let mut opcode_2part = 0u16;
     let mut long_opcode = false;
